@@ -46,13 +46,15 @@ def term(s):
     if t == "dict":
         return {"t": "dict", "es": [{"k": k, "v": term(v)} for k, v in s["v"]]}
     if t == "fnref":
+        if "qn" in s:        # a reference recorded from a real run: its own name and parameter names
+            return dict(fnref_term(s), t="fnref")
         return dict(fnref_term({"name": "ext" if s.get("ext") else "target", "pargs": s.get("pargs", []), "pkw": s.get("pkw", [])}), t="fnref")
     raise ValueError(t)
 
 
 def fnref_term(f):
-    params = PARAMS[f["name"]]
-    return {"qn": QN[f["name"]], "pargs": [term(x) for x in f.get("pargs", [])],
+    params = f["params"] if "qn" in f else PARAMS[f["name"]]
+    return {"qn": f["qn"] if "qn" in f else QN[f["name"]], "pargs": [term(x) for x in f.get("pargs", [])],
             "pkw": [{"k": k, "v": term(v)} for k, v in f.get("pkw", [])], "params": params}
 
 
@@ -190,6 +192,55 @@ def has_nonfinite(s):
     return False
 
 
+def suite_mementos(rep, wd):
+    """every memento the repository's own test suite encodes (recorded by the pytest plugin with the emitted text and the
+    outcome of decoding it again): the document must be Wire(m) of Codec.tla, validated like the generated ones"""
+    from . import suite_rec
+    doc = suite_rec.record_suite(wd)
+    recs = doc.get("mementos", [])
+    bad = [r_ for r_ in recs if "recorder_error" in r_]
+    if bad:
+        raise common.Machinery("memento recorder failed: %s" % bad[0]["recorder_error"])
+    if not recs:
+        raise common.Machinery("the recording run of the test suite encoded no memento")
+    cases = [{"id": i + 1, "m": memento_term(r_["m"])} for i, r_ in enumerate(recs)]
+    inp, outp = os.path.join(wd, "suite_cases.json"), os.path.join(wd, "suite_docs.ndjson")
+    with open(inp, "w") as f:
+        json.dump({"cases": cases}, f)
+    tr = tlc.run("Codec", "Codec.cfg", wd, workers=1, env={"TRACE_FILE": inp, "OUT_FILE": outp}, timeout=900, jvm=("-Xss64m",))
+    if tr["errors"] or not os.path.exists(outp):
+        raise tlc.TlcError("Codec.tla failed on the suite's mementos:\n" + "\n".join(tr["stdout"].split("\n")[-40:]))
+    rep.add_tlc(tr, "Codec.tla: Wire(m) of every memento the repository's test suite encodes")
+    docs = {}
+    with open(outp) as f:
+        for line in f:
+            if line.strip():
+                d = json.loads(line)
+                docs[d["id"]] = convert(d["doc"])
+    traces = []
+    for i, t in enumerate(recs):
+        wireok, why = False, ""
+        try:
+            wireok, why = same_doc(json.loads(t["text"]), docs[i + 1])
+        except ValueError as e:
+            why = str(e)
+        traces.append({"cfg": {"id": i + 1}, "ev": [{"op": "Encode", "strict": bool(t["strict"]), "wireok": bool(wireok), "rtok": bool(t["rtok"]),
+                                                      "hashok": bool(t["hashok"]), "exc": t["exc"], "detail": (t["detail"] + " " + why)[:200]}]})
+    payload = [{"cfg": t["cfg"], "ev": [{k: v for k, v in e.items() if k != "detail"} for e in t["ev"]]} for t in traces]
+    rej, vr = tlc.validate_traces("TraceCodec", payload, wd, timeout=900)
+    rep.add_tlc(vr, "trace validation TraceCodec (mementos of the repository's test suite)")
+    rep.cov["suite_mementos_validated"] = len(traces)
+    rep.cov["suite_mementos_outside_domain"] = {k: v for k, v in doc.get("args_outside_domain", {}).items() if k.startswith("memento:")}
+    rep.cov["suite_pytest"] = doc.get("pytest_summary", "")
+    for rj in rej:
+        t, m = traces[rj["tid"] - 1], recs[rj["tid"] - 1]
+        e = t["ev"][0]
+        facts = {"property": "C11", "kind": "suite", "why": sorted(rj["why"]), "exc": e["exc"][:100], "nonfinite_float_argument": has_nonfinite(m["m"]),
+                 "detail": e["detail"][:120], "test": m.get("test", "")}
+        rep.violation(facts, {"memento": m["m"], "text": m["text"], "event": e, "failed_clauses": sorted(rj["why"])})
+    return len(rej)
+
+
 def run(prop, tier):
     rep = Report(prop, tier)
     quick = tier == "quick"
@@ -245,5 +296,6 @@ def run(prop, tier):
             facts = {"property": prop, "why": sorted(rj["why"]), "exc": e["exc"][:100], "nonfinite_float_argument": has_nonfinite(m),
                      "detail": e["detail"][:120]}
             rep.violation(facts, {"memento": m, "event": e, "failed_clauses": sorted(rj["why"])})
+        suite_mementos(rep, wd)
         rep.assumptions += ["number and time lexical forms come from Python's json/datetime; structural comparison of documents is done by the harness"]
     return rep.finish()
